@@ -21,6 +21,7 @@ RULE = ("differential run of all/any/sum/min/max/list/tuple/set/dict/sorted/redu
 RULE += (" Also: items whose comparison fails with ValueError/KeyError/AttributeError/LookupError/RuntimeError (one failure type per input); inf/-inf/1e308/-0.0 among floats; None/falsy reduction results; a deviation is attributed to a recorded finding only if it shows exactly that finding's mechanism.")
 RULE += (' Also: keys undefined for some items (neg / half over mixed raw items) or failing for every item, one-item inputs, for min/max/sorted/nlargest/nsmallest.')
 RULE += (' Also: dict elements that are unsized one-shot iterators / generators.')
+RULE += (' Also: values ordered by < alone (no __eq__): ties neither smaller nor equal.')
 ASSUMPTIONS = ["builtins/functools/heapq of the running interpreter (3.12) are the reference, incl. compensated float sum"]
 EXHAUSTIVE = {"quick": False, "thorough": False}
 N_RANDOM = {"quick": 150000, "thorough": 8000000}
